@@ -83,7 +83,11 @@ class Set(Container):
 
     def __str__(self) -> str:
         try:
-            return "{%s}" % ", ".join(map(str, self._value))  # This is recursive.
+            # The elements are sorted to make the result independent of the hash seed and of the construction history.
+            def sort_key(x: _any.Any) -> typing.Any:
+                return x.native_value if isinstance(x, _primitive.Primitive) else str(x)
+
+            return "{%s}" % ", ".join(map(str, sorted(self._value, key=sort_key)))  # This is recursive.
         except (AttributeError, TypeError):  # pragma: no cover
             return "Set(UNINITIALIZED)"
 
